@@ -66,12 +66,21 @@ Definition zero_key : key := mkKey [] [] [] [] [] [] [].
 Definition cc_tbl (t : list (str * str)) (st : step) (k : key) : bool :=
   existsb (fun r => str_eqb (fst r) (s_name st) && str_eqb (snd r) (k_keyid k)) t.
 
-Definition verify_inst (now : Z) (truths : list (str * str)) (tc : list (str * key)) (tcc : list (str * str))
+(* LoadLayoutCertificates: every root CA entry and every intermediate CA entry of the layout, and every PEM text handed
+   over by the caller, must yield at least one certificate (x509.CertPool.AppendCertsFromPEM reports whether it added one).
+   [pems]: the texts that do - computed by the harness with encoding/pem and crypto/x509.ParseCertificate directly *)
+Definition pem_ok (pems : list str) (p : str) : bool := existsb (str_eqb p) pems.
+Definition certs_ok_tbl (pems : list str) (l : layout) (inter : list str) : bool :=
+  forallb (fun kv => pem_ok pems (k_cert (snd kv))) (l_rootcas l) &&
+  forallb (fun kv => pem_ok pems (k_cert (snd kv))) (l_intermediatecas l) &&
+  forallb (pem_ok pems) inter.
+
+Definition verify_inst (now : Z) (truths : list (str * str)) (tc : list (str * key)) (tcc : list (str * str)) (pems : list str)
            (cmds : list (list str * cmdkind)) :=
   verify world (vsig_tbl truths)
          (fun s => is_ok (verify_expiration now s))
          substitute
-         (fun _ _ => true)
+         (certs_ok_tbl pems)
          load_all
          (fun l _ sm => verify_thresholds (vsig_tbl truths) (tbl_get_cert tc) (cc_tbl tcc) l sm)
          (fun items meta => verify_artifacts_go items meta)
@@ -82,16 +91,17 @@ Definition insp_log (tr : list event) : list str :=
 
 Definition show_summary (s : env) : str :=
   match e_payload s with
-  | PLink l => show_tuple [show_str (ln_name l); show_artifacts (ln_materials l); show_artifacts (ln_products l)]
+  | PLink l => (match e_wrapper s with DSSE => bs "D:" | Legacy => bs "L:" end) ++
+               show_tuple [show_str (ln_name l); show_artifacts (ln_materials l); show_artifacts (ln_products l)]
   | PLayout _ => []
   end.
 
 (* observable compared with the implementation: verdict | summary | inspections executed *)
-Definition e2e_run (now : Z) (truths : list (str * str)) (tc : list (str * key)) (tcc : list (str * str))
+Definition e2e_run (now : Z) (truths : list (str * str)) (tc : list (str * key)) (tcc : list (str * str)) (pems : list str)
            (cmds : list (list str * cmdkind))
            (prefix : str) (files : amap str) (d : linkdir) (layout_env : env) (keys : amap key)
            (step_name : str) (params : amap str) : str :=
-  match verify_inst now truths tc tcc cmds 8 (mkWorld prefix files) [] d layout_env keys step_name params [] with
+  match verify_inst now truths tc tcc pems cmds 8 (mkWorld prefix files) [] d layout_env keys step_name params [] with
   | (Ok s, _, tr) => bs "accept|" ++ show_summary s ++ [124] ++ join [44] (insp_log tr)
   | (Err _, _, tr) => bs "reject||" ++ join [44] (insp_log tr)
   | (Panic _, _, tr) => bs "PANIC||" ++ join [44] (insp_log tr)
